@@ -105,6 +105,10 @@ class Check:
                 print(f"VIOLATION property={self.pid} replay={path}  # {what}" + (f" sig={sig}" if sig else ""))
                 n += 1
             print(f"# {len(self.violations)} violating case(s) in total")
+            import collections
+            cls = collections.Counter((sig or what).rsplit(":", 1)[0] if (sig or what).count(":") > 2 else (sig or what)
+                                      for what, sig, _ in self.violations)
+            self.cov["violation_classes"] = dict(cls.most_common(60))
         ev = {
             "property_id": self.pid, "tier": self.tier, "seed": seed(), "level": level,
             "coverage": self.cov, "assumptions": self.assumptions,
